@@ -180,6 +180,11 @@ func c02Multi(id int, k *kindInfo, rng *rand.Rand) *Prog {
 		"x := a\nvar e interface{} = x\nv, ok := e.(" + K + ")\nrec(17, v, ok)\n_, ok = e.(int)\nrec(18, ok)",
 		"x, y := a, b\nx, y = §id(y), §id(x)\nrec(19, x, y)",
 		"s := []" + K + "{a, b, a}\ni := 0\ns[§ix(i)], s[§ix(i+1)], i = §id(b), §id(a), 2\nrec(20, s, i)",
+		"x, y := a, b\nfunc() { x, y = y, x }()\nrec(21, x, y)",
+		"x, y := a, b\nfunc() { func() { func() { x, y = y, x }() }() }()\nrec(22, x, y)",
+		"var x, y " + K + "\nfunc() { func() { x, y = §two(a, b) }() }()\nrec(23, x, y)",
+		"var x, y " + K + "\nfunc() { w := 1; func() { x, y = §two(a, b); w++ }(); _ = w }()\nrec(24, x, y)",
+		"x, y := a, b\n{ u := 1; { v := u; x, y = y, x; _ = v } }\nrec(25, x, y)",
 	}
 	var calls []string
 	for i, b := range bodies {
@@ -187,6 +192,8 @@ func c02Multi(id int, k *kindInfo, rng *rand.Rand) *Prog {
 		calls = append(calls, fmt.Sprintf("§m%d(a, b)", i+1))
 	}
 	as := k.varOperands(rng, 2)
+	// a seeded choice of 8 operands (not the first 8, which are all small values: truncating stores would go unseen)
+	rng.Shuffle(len(as), func(i, j int) { as[i], as[j] = as[j], as[i] })
 	if len(as) > 8 {
 		as = as[:8]
 	}
